@@ -632,6 +632,18 @@ theorem ExecAt.weaken {t : Bool} {K : PCtx} {e' : AExpr} {v : Word} {σ : X.St} 
   obtain ⟨b', mem', st, rep, frm⟩ := h gs code gs' i a b mem hg hat hr hsz hnl hci
   exact ⟨b', mem', st, rep, frm.mono (Nat.le_refl _) (hiB_ge t K hsz)⟩
 
+theorem ExecT.same_left {t : Bool} {K : PCtx} {e' : AExpr} {v : Word} {σ0 σ σ' : X.St} (h : ExecT t K e' v σ σ')
+    (hs : SameVars σ0 σ) : ExecT t K e' v σ0 σ' := by
+  intro gs code gs' i a b mem hg hat hr hsz hnl hci
+  obtain ⟨b', mem', st, rep, frm⟩ := h gs code gs' i a b mem hg hat (hr.same hs) hsz hnl hci
+  exact ⟨b', mem', by rw [← hs.2.2.2.1]; exact st, rep, frm⟩
+
+theorem ExecT.same_right {t : Bool} {K : PCtx} {e' : AExpr} {v : Word} {σ σ' σ2 : X.St} (h : ExecT t K e' v σ σ')
+    (hs : SameVars σ' σ2) : ExecT t K e' v σ σ2 := by
+  intro gs code gs' i a b mem hg hat hr hsz hnl hci
+  obtain ⟨b', mem', st, rep, frm⟩ := h gs code gs' i a b mem hg hat hr hsz hnl hci
+  exact ⟨b', mem', by rw [hs.2.2.2.1]; exact st, rep.same hs, frm⟩
+
 theorem ExecP.same {t : Bool} {K : PCtx} {e' : AExpr} {P : Word → Prop} {σ σ' : X.St} (h : ExecP t K e' P σ)
     (hs : SameVars σ σ') : ExecP t K e' P σ' := by
   intro gs code gs' i a b mem hg hat hr hsz hnl hci
